@@ -11,7 +11,7 @@ class _RL(dict):
 UNIT_RLIMIT = _RL({"div_small": 80, "mul_redc": 80})      # unit -> --rlimit (Verus default is 10; 5x head-room over the measured maximum)
 UNIT_TIMEOUT = {"knuth": 1500, "addmul": 900, "mul_redc": 1200}     # unit -> seconds
 UNIT_EXPECT = {       # unit -> minimum number of verified functions on the unchanged tree (vacuity guard)
-    "core": 31, "add": 29, "kernels": 79, "addmul": 71, "addmul_n": 73, "mul": 51, "divd": 45, "div_small": 235, "knuth": 145, "mul_redc": 124, "basics": 22, "pow": 38, "divw": 54, "modular": 63, "spigot": 44, "gcd": 21, "forward": 57, "invring": 36, "bitlen": 70, "shifts": 131, "recip_table": 2, "gcdext": 64, "gcdw": 33, "bits": 60, "conv": 31,
+    "core": 31, "add": 29, "kernels": 79, "addmul": 71, "addmul_n": 73, "mul": 51, "divd": 45, "div_small": 235, "knuth": 145, "mul_redc": 124, "basics": 22, "pow": 38, "divw": 54, "modular": 63, "spigot": 44, "gcd": 21, "forward": 57, "invring": 36, "bitlen": 70, "shifts": 131, "recip_table": 2, "gcdext": 64, "gcdw": 33, "bits": 60, "conv": 31, "lehmer": 31,
 }
 
 COMMON_TRUST = [
@@ -320,17 +320,18 @@ PROPS = {
         level="other",
         level_text="Verus proves, for every width: the gcd loop (initial swap, Lehmer step via apply, Euclidean fallback, termination) returns Euclid's function sgcd, which is proved to be the greatest common divisor "
                    "(divides both; every common divisor divides it); gcd_extended returns g = gcd and cofactors with a*x - b*y = g (sign) resp. b*y - a*x = g modulo 2^BITS (exact integer Bezout rows, stored cofactors as residues, "
-                   "final negation and swap); lcm returns Some(a*b/gcd) exactly when that value is < 2^BITS (Some(0) if either is 0) and None otherwise; the Uint wrappers forward. All of this is modular over the ASSUMED "
+                   "final negation and swap); lcm returns Some(a*b/gcd) exactly when that value is < 2^BITS (Some(0) if either is 0) and None otherwise; the Uint wrappers forward; LehmerMatrix::from_u64 (the extended Euclid on two words "
+                   "that `from` uses for operands of at most 64 bits) returns the identity for b = 0 and otherwise a matrix satisfying the whole Lehmer contract (exact map to a later remainder pair, determinant, row order, entries <= a, no word overflow). The loops are modular over the ASSUMED "
                    "contract of LehmerMatrix::from/apply, which contains the property's last sentence; Kani checks gcd/lcm/gcd_extended by enumeration at 3-4 bits",
         level_note="the Lehmer matrix construction (from_u64, from_u64_prefix, from_u128_prefix, from: Jebelean's exactness conditions over up to 46 symbolic u64 divisions) is ASSUMED, not derived - a change inside matrix.rs "
                    "is noticed only by the tiny-width Kani enumerations (which never reach the >64-bit prefix paths): hence level 'other', not 'proof'. lcm uses a declared rewrite of Option::unwrap_or_default to "
                    "unwrap_or(<Uint as Default>::default()), with Default::default extracted and proved to be ZERO",
         technique="deductive contracts for the loops and wrappers (Verus, all widths) relative to an assumed matrix contract + Kani enumeration at tiny widths",
-        units=["core", "gcd", "gcdext", "gcdw"],
+        units=["core", "gcd", "gcdext", "gcdw", "lehmer"],
         kani=dict(features=None, quick=hs("c10", r"gcd|lcm"), thorough=hs("c10", r"gcd|lcm"), bounds="3-4 bits, all pairs"),
         explanation="gcd: invariant gcd(a, b) = gcd(a0, b0), a >= b; decreases b. gcd_extended: a = S0*A + T0*B, b = S1*A + T1*B over the integers, stored s/t = S/T mod 2^BITS",
         trusted=COMMON_TRUST,
-        not_decided=["LehmerMatrix::from / from_u64 / from_u64_prefix / from_u128_prefix / compose (assumed contract)", "LehmerMatrix::apply (assumed: evaluates the signed map modulo 2^BITS)"],
+        not_decided=["LehmerMatrix::from (dispatch) / from_u64_prefix / from_u128_prefix / compose (assumed contract; from_u64 is proved)", "LehmerMatrix::apply (assumed: evaluates the signed map modulo 2^BITS)"],
     ),
     "C19": dict(
         level="other",
